@@ -669,7 +669,57 @@ func (t *Termer) load(addr ssa.Value) string {
 		}
 		return t.path(addr) + "@" + ver
 	}
+	if t.Versioned {
+		if v := heapFieldVersion(addr, t.curLoad); v != "" {
+			return t.path(addr) + "@" + v
+		}
+	}
 	return t.path(addr)
+}
+
+// heapFieldVersion distinguishes loads of a struct field (of an object that
+// is not a local variable) that may be separated by a store to the same
+// field of the same struct type within this function: the version is the
+// number of such stores dominating the load when every store that can reach
+// the load dominates it ("" when none), and "u" otherwise. Calls are not
+// considered (a callee may also write the field; terms are compared within
+// one function's reviewed table, which is re-reviewed when calls move).
+func heapFieldVersion(addr ssa.Value, load ssa.Instruction) string {
+	fa, ok := addr.(*ssa.FieldAddr)
+	if !ok || load == nil {
+		return ""
+	}
+	fv, _ := fieldOf(fa)
+	if fv == nil {
+		return ""
+	}
+	fn := load.Parent()
+	n := 0
+	for _, b := range fn.Blocks {
+		for _, in := range b.Instrs {
+			st, ok := in.(*ssa.Store)
+			if !ok {
+				continue
+			}
+			sfa, ok := st.Addr.(*ssa.FieldAddr)
+			if !ok {
+				continue
+			}
+			sfv, _ := fieldOf(sfa)
+			if sfv != fv {
+				continue
+			}
+			if InstrDominates(st, load) {
+				n++
+			} else if instrReaches(st, load) {
+				return "u"
+			}
+		}
+	}
+	if n == 0 {
+		return ""
+	}
+	return fmt.Sprint(n)
 }
 
 // allocVersion distinguishes reads of an address-taken local that may be
